@@ -378,6 +378,9 @@ func spec(c *kase) *expectation {
 		return e
 	}
 	e.Transport = encTransport[c.Enc]
+	if strings.HasPrefix(c.Enc, "get-badparam-") {
+		e.Transport = "get"
+	}
 	e.Negotiates = e.Transport == "get" || e.Transport == "post"
 
 	// --- Content-Type
@@ -393,6 +396,8 @@ func spec(c *kase) *expectation {
 	// --- outcome
 	op, why := c.Doc.selectOperation(c.OpName)
 	switch {
+	case strings.HasPrefix(c.Enc, "get-badparam-"):
+		e.Outcome, e.Why = "refuse-bad-parameter", "the "+strings.TrimPrefix(c.Enc, "get-badparam-")+" parameter of the GET is not decodable JSON"
 	case op == nil:
 		e.Outcome, e.Why = "refuse-client-error", why
 	case e.Transport == "get" && op.Kind != "query":
